@@ -1110,9 +1110,8 @@ private:
                 return;
             }
             rate_identity = hashed_token_identity(token_it->second);
-        } else if (token_it != request.fields.end()) {
-            rate_identity = hashed_token_identity(token_it->second);
         }
+        // Without a configured token the TOKEN header is unauthenticated input: the limit stays per client address.
 
         std::chrono::seconds ttl = default_ttl;
         if (const auto ttl_it = request.fields.find("TTL"); ttl_it != request.fields.end()) {
@@ -1366,9 +1365,8 @@ private:
                     return;
                 }
                 rate_identity = hashed_token_identity(token_it->second);
-            } else if (token_it != fields.end()) {
-                rate_identity = hashed_token_identity(token_it->second);
             }
+            // Without a configured token the TOKEN header is unauthenticated input: the limit stays per client address.
 
             if (!allow_stream_fetch(rate_identity)) {
                 auto error = make_error("ERR_FETCH_RATE_LIMITED",
